@@ -13,11 +13,11 @@ package main
 //
 //	payload: <packed 0|1> <n> <filler 0|1|2> <seed> <plants|-> <ws-hex|-> <tree> <rc> <zip4-hex>
 //	         plants = off:hex,off:hex…  (bytes planted into the filler)
-//	result : off=<pos|none> <exit=<rc> files=ok | fall | fail | misfound | …>
+//	result : exit=<rc> files=ok | fall | fail | …   (the offset is counted, not compared)
 //
 //	payload: proc <tree> <rc> <arg-hex,…|-> <abs|bare|decoy|rel|dotdot|symlink>   (the real CLI binary of the tree under test, packed,
 //	         started as a child process with these arguments, stdin at EOF)
-//	result : proc srcmarker=<0|1> exit=<code> entry=<ran|notrun> clean=<0|1>
+//	result : proc srcmarker=<0|1> exit=<code> entry=<ran|notrun>
 //
 // `harness C20 -tool extract <out.lean>` regenerates the geometry facts
 // (lean/Ecal/Gen/C20.lean) from cli/tool/pack.go with go/ast.
@@ -66,6 +66,9 @@ type c20Facts struct {
 	literalWhole bool     // packmarker is one string literal (then the binary itself contains it)
 	problems     []string // pieces of the source the extractor could not translate
 	mainFirst    bool     // first statement of main() is the unconditional call tool.RunPackedBinary()
+	mainKnown    bool     // … established (true or false); otherwise the fact is `none`
+	exeKnown     bool
+	truncKnown   bool
 	mainSrc      string
 	usesOsExe    bool // the file to scan is determined with os.Executable()
 	usesOsExeSrc string
@@ -720,9 +723,9 @@ func c20Extract() (*c20Facts, error) {
 		}
 		switch {
 		case foundExe != "":
-			f.usesOsExe, f.usesOsExeSrc = true, foundExe
+			f.usesOsExe, f.usesOsExeSrc, f.exeKnown = true, foundExe, true
 		case foundAbs != "":
-			f.usesOsExe, f.usesOsExeSrc = false, foundAbs+" only"
+			f.usesOsExe, f.usesOsExeSrc, f.exeKnown = false, foundAbs+" only", true
 		default:
 			problem("how RunPackedBinary determines the file to scan was not recognised")
 		}
@@ -766,11 +769,9 @@ func c20Extract() (*c20Facts, error) {
 			}
 			return true
 		})
-		if len(opens) == 0 {
-			problem("Pack: no os.Create / os.OpenFile of the target recognised")
-		} else {
-			f.truncates = all
+		if len(opens) > 0 {
 			f.truncSrc = text(opens[0])
+			f.truncKnown = all // a non-O_TRUNC open proves nothing (Truncate(0) may follow, or it is another file): the sequence cases decide
 		}
 	}
 
@@ -803,6 +804,7 @@ func c20Extract() (*c20Facts, error) {
 		case mainFn == nil:
 			problem("cli/ecal.go: func main not found")
 		case len(mainFn.Body.List) > 0 && isCall(mainFn.Body.List[0]):
+			f.mainKnown = true
 			f.mainSrc = c20NodeText(fset, msrc, mainFn.Body.List[0])
 		default:
 			topLevel, nested := false, false
@@ -829,6 +831,7 @@ func c20Extract() (*c20Facts, error) {
 			if nested && !topLevel {
 				// positively established: the call exists only inside a compound statement
 				f.mainFirst = false
+				f.mainKnown = true
 				f.mainSrc = "the call is nested in: " + first
 			} else {
 				problem("cli/ecal.go: the first statement of main is not the call tool.RunPackedBinary() (%v); not established whether it is reached unconditionally", first)
@@ -884,13 +887,18 @@ func c20LeanFile(f *c20Facts) string {
 		}, p)))
 	}
 	fmt.Fprintf(&b, "/-- what the extractor could NOT translate (reference values were used there); must be empty -/\ndef extractProblems : List String := [%s]\n\n", strings.Join(probs, ", "))
-	fmt.Fprintf(&b, "/-- cli/ecal.go: is the first statement of `main` the unconditional call `tool.RunPackedBinary()`?\n    First statement found: `%s` -/\ndef mainCallsRunPackedFirst : Bool := %v\n\n",
-		strings.ReplaceAll(strings.ReplaceAll(f.mainSrc, "-/", "- /"), "/-", "/ -"), f.mainFirst)
-	fmt.Fprintf(&b, "/-- Pack: is the target opened so that its old content is discarded (`os.Create`, or `os.OpenFile` with\n    `O_TRUNC`)? Found: `%s` -/\ndef targetOpenTruncates : Bool := %v\n\n",
-		strings.ReplaceAll(strings.ReplaceAll(f.truncSrc, "-/", "- /"), "/-", "/ -"), f.truncates)
-	fmt.Fprintf(&b, "/-- is the file to scan determined with `os.Executable()`? Found: `%s` -/\ndef locateUsesOsExecutable : Bool := %v\n\n",
-		strings.ReplaceAll(strings.ReplaceAll(f.usesOsExeSrc, "-/", "- /"), "/-", "/ -"), f.usesOsExe)
-	fmt.Fprintf(&b, "/-- is `packmarker` the result of a function call at run time (not a constant expression, which the\n    compiler would fold into one literal inside the interpreter binary)? -/\ndef markerBuiltByCall : Bool := %v\n\n", f.markerByCall)
+	optBool := func(known, v bool) string {
+		if !known {
+			return "none"
+		}
+		return fmt.Sprintf("some %v", v)
+	}
+	esc := func(t string) string { return strings.ReplaceAll(strings.ReplaceAll(t, "-/", "- /"), "/-", "/ -") }
+	b.WriteString("/-! Three-valued facts: `some true` / `some false` = established from the source, `none` = not established\n(the check then relies on the correspondence cases alone and amplifies them). -/\n\n")
+	fmt.Fprintf(&b, "/-- cli/ecal.go: is the first statement of `main` the unconditional call `tool.RunPackedBinary()`?\n    Found: `%s` -/\ndef mainCallsRunPackedFirst : Option Bool := %s\n\n", esc(f.mainSrc), optBool(f.mainKnown, f.mainFirst))
+	fmt.Fprintf(&b, "/-- is the file to scan determined with `os.Executable()`? Found: `%s` -/\ndef locateUsesOsExecutable : Option Bool := %s\n\n", esc(f.usesOsExeSrc), optBool(f.exeKnown, f.usesOsExe))
+	fmt.Fprintf(&b, "/-- information only (no obligation; the sequence cases decide): Pack opens the target with `os.Create` / `O_TRUNC`?\n    Found: `%s` -/\ndef targetOpenTruncates : Option Bool := %s\n\n", esc(f.truncSrc), optBool(f.truncKnown, true))
+	fmt.Fprintf(&b, "/-- information only (no obligation; case `realbin` is the evidence): `packmarker` is built by a call at run time -/\ndef markerBuiltByCall : Bool := %v\n\n", f.markerByCall)
 	b.WriteString("end Ecal.Gen.C20\n")
 	return b.String()
 }
@@ -998,6 +1006,7 @@ type c20Tree struct {
 
 var (
 	c20Scratch string
+	c20CLIAbs  string
 	c20Trees   []*c20Tree
 	c20Buf     []byte
 	c20Hook    struct {
@@ -1025,6 +1034,7 @@ func c20Setup() {
 	check(err)
 	c20Scratch, err = os.MkdirTemp(wd, "c20-scratch-")
 	check(err)
+	c20CLIAbs = filepath.Join(wd, c20CLIName)
 	f, err := c20Extract()
 	check(err)
 	marker := string(f.marker)
@@ -1041,7 +1051,7 @@ func c20Setup() {
 			"import \"lib/sub/deep/d.ecal\" as d\nimport \"lib/a.ecal\" as a\na.add(d.twice(%d), 0) / 2\n"},
 		// 2: empty file, binary file with every byte value, file names with spaces / dots / UTF-8
 		{map[string]string{"empty.txt": "", "data/all.bin": c20AllBytes(), "data/with space.txt": " \n\t", "data/.hidden": "h",
-			"data/ü/ö.txt": "äöü", "lib/a.ecal": lib},
+			"data/ü/ö.txt": "äöü", "lib/a.ecal": lib, ".git/config": "[core]\n", ".a/.b/c.txt": "hidden directories", "lib/.cache/x": "x"},
 			"import \"lib/a.ecal\" as a\na.add(%d, 0)\n"},
 		// 3: files that contain the marker, '#' runs and a zip signature themselves
 		{map[string]string{"m/marker.txt": "x" + marker + "y" + marker, "m/hash.txt": strings.Repeat("#", 5000),
@@ -1063,6 +1073,23 @@ func c20Setup() {
 		// 9: a dangling symbolic link, followed (in name order) by other entries — refuse
 		{map[string]string{"a.txt": "a", "z/last.txt": "z"}, "x := %d\nx\n"},
 	}
+	// 10: files around 2^16 and 2^20 bytes and one of 3 MB (compressible)
+	big := map[string]string{}
+	for _, sz := range []int{65535, 65536, 65537, 1<<20 - 1, 1 << 20, 1<<20 + 1, 3 << 20} {
+		b := make([]byte, sz)
+		c20Fill(b, 1, 0)
+		big[fmt.Sprintf("large/f%d.dat", sz)] = string(b)
+	}
+	specs = append(specs, struct {
+		files map[string]string
+		entry string
+	}{big, "x := %d\nx\n"})
+	// 11: the entry imports through spellings that work when the program is run from disk
+	specs = append(specs, struct {
+		files map[string]string
+		entry string
+	}{map[string]string{"lib/a.ecal": lib, "x/y.txt": "y"},
+		"import \"./lib/a.ecal\" as a\nimport \"lib//a.ecal\" as b\nimport \"x/../lib/a.ecal\" as c\na.add(b.add(%d, 0), c.add(0, 0))\n"})
 	links := map[int]map[string]string{8: {"alink": "real"}, 9: {"blink": "nowhere", "y/inner": "../missing"}}
 	for k, s := range specs {
 		t := &c20Tree{dir: filepath.Join(c20Scratch, fmt.Sprintf("tree%d", k)), files: s.files, entry: s.entry}
@@ -1151,16 +1178,34 @@ func c20BuildCLI(out string) error {
 
 // c20CLIPath returns the CLI executable built for this run (builds it for single-case runs).
 func c20CLIPath() (string, error) {
-	cli, err := filepath.Abs(c20CLIName)
-	if err != nil {
-		return "", err
-	}
+	cli := c20CLIAbs
 	if _, err := os.Stat(cli); err != nil {
 		if err := c20BuildCLI(cli); err != nil {
 			return "", err
 		}
 	}
 	return cli, nil
+}
+
+// c20MainWords returns the string literals of cli/ecal.go that look like a command line word.
+func c20MainWords() []string {
+	path := filepath.Join(repoDir(), "cli", "ecal.go")
+	fset := token.NewFileSet()
+	file, err := parser.ParseFile(fset, path, nil, 0)
+	if err != nil {
+		return nil
+	}
+	var ws []string
+	ast.Inspect(file, func(n ast.Node) bool {
+		if bl, ok := n.(*ast.BasicLit); ok && bl.Kind == token.STRING {
+			if v, err := strconv.Unquote(bl.Value); err == nil && len(v) > 0 && len(v) <= 20 && !strings.ContainsAny(v, " \t\n%/") {
+				ws = append(ws, v)
+			}
+		}
+		return true
+	})
+	sort.Strings(ws)
+	return ws
 }
 
 // c20RunProc: payload `proc <tree> <rc> <arg-hex,arg-hex…|->`. The real CLI binary is
@@ -1183,15 +1228,9 @@ func c20RunProc(fs []string) string {
 		}
 	}
 	tree := c20Trees[treeNo]
-	cli, err := filepath.Abs(c20CLIName)
+	cli, err := c20CLIPath()
 	if err != nil {
 		return "ERR " + oneLine(err.Error())
-	}
-	if _, err := os.Stat(cli); err != nil {
-		// single-case runs (replay): build it here
-		if err := c20BuildCLI(cli); err != nil {
-			return "ERR " + oneLine(err.Error())
-		}
 	}
 	bin, err := os.ReadFile(cli)
 	if err != nil {
@@ -1277,7 +1316,10 @@ func c20RunProc(fs []string) string {
 		}
 	}
 	CountRun("process started")
-	return fmt.Sprintf("proc srcmarker=%d exit=%d entry=%s clean=%d", srcmarker, code, ran, clean)
+	if clean == 0 {
+		CountRun("process printed something besides the entry's log line (not compared)")
+	}
+	return fmt.Sprintf("proc srcmarker=%d exit=%d entry=%s", srcmarker, code, ran)
 }
 
 // ---------------------------------------------------------------- one case
@@ -1350,6 +1392,31 @@ func c20RunOut(fs []string) string {
 	if os.WriteFile(src, bin, 0644) != nil || os.WriteFile(entry, []byte(entryText), 0644) != nil {
 		return "ERR write"
 	}
+	if variant == "srcistarget" || variant == "srcistarget-link" {
+		// -source X -target X (also through a hard link): the tool must refuse, X stays what it was
+		tgt := src
+		if variant == "srcistarget-link" {
+			tgt = filepath.Join(c20Scratch, "out-link.bin")
+			os.Remove(tgt)
+			if err := os.Link(src, tgt); err != nil {
+				return "ERR link"
+			}
+			defer os.Remove(tgt)
+		}
+		p := tool.NewCLIPacker()
+		p.LogOut = io.Discard
+		p.Dir, p.SourceBinary, p.TargetBinary, p.EntryFile = &c20Trees[0].dir, &src, &tgt, entry
+		err := p.Pack()
+		after, _ := os.ReadFile(src)
+		intact := "source-intact"
+		if !bytes.Equal(after, bin) {
+			intact = fmt.Sprintf("source-destroyed:%d-bytes-left", len(after))
+		}
+		if err != nil {
+			return "out pack-refused " + intact
+		}
+		return "out packed " + intact
+	}
 	p := tool.NewCLIPacker()
 	p.LogOut = io.Discard
 	p.Dir, p.SourceBinary, p.TargetBinary, p.EntryFile = &c20Trees[0].dir, &src, &dst, entry
@@ -1359,6 +1426,24 @@ func c20RunOut(fs []string) string {
 	start := n + len(c20FactsCached().marker)
 	exe := dst
 	switch variant {
+	case "bothexist-text", "bothexist-packed":
+		// a sibling app.exe next to the started app (a release directory): app is what runs
+		sib := dst + ".exe"
+		defer os.Remove(sib)
+		if variant == "bothexist-text" {
+			if err := os.WriteFile(sib, []byte("MZ this is not the program\n"), 0755); err != nil {
+				return "ERR write"
+			}
+		} else {
+			other := filepath.Join(c20Scratch, "out-entry2.ecal")
+			os.WriteFile(other, []byte(fmt.Sprintf("x := %d\nx\n", rc+100)), 0644)
+			q := tool.NewCLIPacker()
+			q.LogOut = io.Discard
+			q.Dir, q.SourceBinary, q.TargetBinary, q.EntryFile = &c20Trees[0].dir, &src, &sib, other
+			if err := q.Pack(); err != nil {
+				return "ERR pack2 " + oneLine(err.Error())
+			}
+		}
 	case "exesuffix":
 		// the branch for Windows: the name the program was started with lacks the suffix of the file
 		os.Remove(dst + ".exe")
@@ -1376,13 +1461,7 @@ func c20RunOut(fs []string) string {
 		os.Truncate(dst, int64(start))
 	}
 	r := strings.Split(c20ExecInProcess(exe, int64(start), c20Trees[0], 0, entryText), " ")
-	if len(r) < 2 {
-		return "out " + strings.Join(r, " ")
-	}
-	if r[0] == "off=none" {
-		return "out " + r[1]
-	}
-	return "out " + r[0] + " " + r[1]
+	return "out " + r[0]
 }
 
 // c20RandomTree builds a random project under dir: names with spaces, UTF-8, ':', '\\', quotes, long
@@ -1397,7 +1476,11 @@ func c20RandomTree(r *Rand, dir string, maxFiles int) map[string]string {
 		depth := r.Intn(6)
 		var parts []string
 		for d := 0; d < depth; d++ {
-			parts = append(parts, "d"+names[r.Intn(len(names))])
+			if r.Intn(3) == 0 { // also directories called `.dot`, `-dash`, `with space`, …
+				parts = append(parts, names[r.Intn(len(names))])
+			} else {
+				parts = append(parts, "d"+names[r.Intn(len(names))])
+			}
 		}
 		parts = append(parts, fmt.Sprintf("f%d-%s", i, names[r.Intn(len(names))]))
 		name := strings.Join(parts, "/")
@@ -1476,13 +1559,31 @@ func c20RunRandomTree(fs []string) string {
 		dst = filepath.Join(dir, "out.bin")
 		tree.ignore["out.bin"] = true
 	}
+	// how the project directory (and the entry) is spelled on the command line: clean absolute path,
+	// or relative to the working directory in several unclean forms
+	spelling := r.Intn(7)
+	dirArg, entryArg := dir, entry
+	if spelling > 0 {
+		relDir := []string{"", "rt/project", "./rt/project", "rt/project/", "rt/../rt/project", "rt//project", "./rt/./project/."}[spelling]
+		dirArg = relDir
+		if r.Intn(2) == 0 {
+			entryArg = "rt/project/" + entryRel // the entry relative to the working directory as well
+		}
+	}
 	switch via {
 	case "args":
-		args := []string{src, "pack", "-dir", dir}
+		if spelling > 0 {
+			wd, err := os.Getwd()
+			if err != nil || os.Chdir(c20Scratch) != nil {
+				return "ERR chdir"
+			}
+			defer os.Chdir(wd)
+		}
+		args := []string{src, "pack", "-dir", dirArg}
 		if r.Intn(2) == 0 {
 			args = append(args, "-source", src) // otherwise the default: the running binary = osArgs[0]
 		}
-		args = append(args, "-target", dst, entry)
+		args = append(args, "-target", dst, entryArg)
 		flag.CommandLine = flag.NewFlagSet("harness", flag.ContinueOnError)
 		flag.CommandLine.SetOutput(io.Discard)
 		old := tool.VerifSetOsArgs(args)
@@ -1507,6 +1608,10 @@ func c20RunRandomTree(fs []string) string {
 		defer cancel()
 		cmd := exec.CommandContext(ctx, cli, "pack", "-target", dst, entryRel)
 		cmd.Dir = dir
+		if spelling > 0 { // -dir given in an unclean relative spelling, the working directory is elsewhere
+			cmd = exec.CommandContext(ctx, cli, "pack", "-dir", dirArg, "-target", dst, entryArg)
+			cmd.Dir = c20Scratch
+		}
 		cmd.Stdin = strings.NewReader("")
 		out, err := cmd.CombinedOutput()
 		if ctx.Err() != nil {
@@ -1519,11 +1624,6 @@ func c20RunRandomTree(fs []string) string {
 		return "bad-payload"
 	}
 	res := c20ExecInProcess(dst, int64(srcLen+len(c20FactsCached().marker)), tree, -1, entryText)
-	if via == "cli" && strings.HasPrefix(res, "off=") && !strings.HasPrefix(res, "off=none") {
-		var pos int
-		fmt.Sscanf(res, "off=%d", &pos)
-		res = fmt.Sprintf("off=cli+%d", pos-srcLen) + res[strings.Index(res, " "):]
-	}
 	return "rt " + res
 }
 
@@ -1571,6 +1671,9 @@ func c20Run(payload string) string {
 	zip4 := unhx(fs[8])
 	tree := c20Trees[treeNo]
 
+	if kind == 3 {
+		return c20RunSparse(n, tree, treeNo, rc, zip4)
+	}
 	if cap(c20Buf) < n {
 		c20Buf = make([]byte, n+4096)
 	}
@@ -1636,8 +1739,50 @@ func c20Run(payload string) string {
 	return c20ExecInProcess(exe, trueStart, tree, treeNo, entryText)
 }
 
+// c20RunSparse: a source binary of n zero bytes created as a sparse file (interpreters of 16 MB … 512 MB:
+// "of any size"); only the tail of the packed file is read back for the layout check.
+func c20RunSparse(n int, tree *c20Tree, treeNo, rc int, zip4 string) string {
+	src := filepath.Join(c20Scratch, "sparse-source.bin")
+	dst := filepath.Join(c20Scratch, "sparse-packed.bin")
+	entry := filepath.Join(c20Scratch, "entry.ecal")
+	defer os.Remove(src)
+	defer os.Remove(dst)
+	f, err := os.Create(src)
+	if err != nil {
+		return "ERR " + oneLine(err.Error())
+	}
+	err = f.Truncate(int64(n))
+	f.Close()
+	if err != nil {
+		return "ERR truncate " + oneLine(err.Error())
+	}
+	entryText := fmt.Sprintf(tree.entry, rc)
+	if err := os.WriteFile(entry, []byte(entryText), 0644); err != nil {
+		return "ERR write " + oneLine(err.Error())
+	}
+	p := tool.NewCLIPacker()
+	p.LogOut = io.Discard
+	p.Dir, p.SourceBinary, p.TargetBinary, p.EntryFile = &tree.dir, &src, &dst, entry
+	if err := p.Pack(); err != nil {
+		return "pack-refused"
+	}
+	mk := c20FactsCached().marker
+	d, err := os.Open(dst)
+	if err != nil {
+		return "ERR " + oneLine(err.Error())
+	}
+	tail := make([]byte, len(mk)+4)
+	_, err = d.ReadAt(tail, int64(n))
+	d.Close()
+	if err != nil || !bytes.HasPrefix(tail, mk) || !bytes.HasPrefix(tail[len(mk):], []byte(zip4)) {
+		return "LAYOUT marker-or-archive-not-after-source"
+	}
+	CountRun("sparse source binary")
+	return c20ExecInProcess(dst, int64(n+len(mk)), tree, treeNo, entryText)
+}
+
 // c20ExecInProcess points osArgs[0] at exe and calls the real RunPackedBinary.
-// result: off=<pos|none> <exit=<rc> files=ok | fall | fail | fail-index | misfound | …>
+// result: exit=<rc> files=ok | fall | fail | fail-index | exit=<rc> files=<what differs>
 func c20ExecInProcess(exe string, trueStart int64, tree *c20Tree, treeNo int, entryText string) string {
 	c20Hook.archive, c20Hook.filesHit, c20Hook.files, c20Hook.filesErr = false, false, nil, nil
 	exitCalled, exitCode := 0, 0
@@ -1655,37 +1800,39 @@ func c20ExecInProcess(exe string, trueStart int64, tree *c20Tree, treeNo int, en
 	tool.VerifSetOsArgs(oldArgs)
 	tool.VerifSetOsExit(oldExit)
 
-	off := "off=none"
+	// The offset handed to the zip reader is NOT part of the compared result (the property constrains
+	// what runs and which files are visible; Go's zip reader locates the directory from the end
+	// record and accepts bytes in front of the archive). It is recorded as a count only.
+	off := ""
 	if c20Hook.archive {
-		off = fmt.Sprintf("off=%d", c20Hook.pos)
-		if c20Hook.pos != trueStart {
-			// not the archive Pack wrote: whatever the zip reader makes of it is not compared
-			return off + " misfound"
+		if c20Hook.pos == trueStart {
+			CountRun("offset handed to the zip reader = start of the archive Pack wrote")
+		} else if trueStart >= 0 {
+			CountRun("offset handed to the zip reader differs from the start of the archive (tolerated by the zip reader if it still runs)")
 		}
-		// the section handed to the zip reader ends at the end of the file (archive_exact)
 		st, err := os.Stat(exe)
 		if err != nil {
 			st, err = os.Stat(exe + ".exe")
 		}
-		if err != nil || c20Hook.pos+c20Hook.len != st.Size() {
-			return off + fmt.Sprintf(" section-length:%d", c20Hook.len)
+		if err == nil && c20Hook.pos+c20Hook.len != st.Size() {
+			CountRun("section handed to the zip reader does not end at the end of the file")
 		}
 	}
 	switch {
 	case failed != "":
 		CountRun("fail")
 		if strings.Contains(failed, "index out of range") || strings.Contains(failed, "slice bounds") {
-			return off + " fail-index"
+			return off + "fail-index"
 		}
-		return off + " fail"
+		return off + "fail"
 	case exitCalled == 0:
 		CountRun("fall")
-		return off + " fall"
+		return off + "fall"
 	case exitCalled > 1:
-		return off + " exit-called-twice"
+		return off + "exit-called-twice"
 	}
 	CountRun("exit")
-	res := fmt.Sprintf("%s exit=%d", off, exitCode)
+	res := fmt.Sprintf("%sexit=%d", off, exitCode)
 	// files visible to the packed program
 	if !c20Hook.filesHit {
 		return res + " files=unobserved"
@@ -1854,12 +2001,6 @@ func c20RunSeq(fs []string) string {
 		srcLen = cliLen
 	}
 	r := c20ExecInProcess(target, int64(srcLen+len(c20FactsCached().marker)), c20Trees[t2], t2, entryText)
-	if n2 < 0 && strings.HasPrefix(r, "off=") && !strings.HasPrefix(r, "off=none") {
-		// the model does not know the size of the CLI executable: offset relative to its end
-		var pos int
-		fmt.Sscanf(r, "off=%d", &pos)
-		r = fmt.Sprintf("off=cli+%d", pos-cliLen) + r[strings.Index(r, " "):]
-	}
 	res += r
 	if withProc {
 		cwd := filepath.Join(c20Scratch, "cwd")
@@ -1964,6 +2105,15 @@ func c20Gen(g *Gen) {
 			emit("corpus", true, n, kind, nil, "", 0, 3+kind)
 		}
 	}
+	// 1a. very large interpreters ("of any size"): sparse sources of zeros; the model's answer for these is
+	//     the theorem scan_finds_archive itself (zeros contain no byte of the marker)
+	sparse := []int{1 << 24, 1<<25 + 1, 1<<27 - 1}
+	if g.Thorough() {
+		sparse = append(sparse, 1<<28+3, 1<<29-1, 1<<26+f.bufSize-1)
+	}
+	for i, n := range sparse {
+		emit("sparse source binary", true, n, 3, nil, "", 0, 40+i)
+	}
 	// 1b. the real executable: the CLI of the tree under test, packed, started as a child
 	//     process with different command lines — the entry must run whatever the arguments are
 	argLists := [][]string{{}, {"hello"}, {"-x", "1"}, {"run"}, {"run", "job1"}, {"format"}, {"pack"}, {"console"}, {"debug"}}
@@ -1984,6 +2134,26 @@ func c20Gen(g *Gen) {
 			}
 			g.Count("real process")
 			g.Emit(fmt.Sprintf("proc %d %d %s abs", t, 20+ti*40+ai, as))
+		}
+	}
+	// … every word the CLI's main knows (string literals of cli/ecal.go) and the usual flags as first
+	// argument, alone and followed by a second argument: the packed program runs for EVERY command line
+	words := append(c20MainWords(), "-h", "-help", "--help", "-version", "--version", "-v", "--", "version", "help")
+	seenW := map[string]bool{}
+	wi := 0
+	for _, w := range words {
+		if seenW[w] {
+			continue
+		}
+		seenW[w] = true
+		for _, second := range []string{"", "x"} {
+			as := hx(w)
+			if second != "" {
+				as += "," + hx(second)
+			}
+			g.Count("real process, first argument from the CLI's own vocabulary")
+			g.Emit(fmt.Sprintf("proc 0 %d %s abs", 10+wi%230, as))
+			wi++
 		}
 	}
 	// … and the ways an executable gets started: found through $PATH (bare argv[0], the working
@@ -2034,7 +2204,8 @@ func c20Gen(g *Gen) {
 	g.Count("real interpreter binary: hypothesis check")
 	g.Emit("realbin")
 	// 1d. after the scan: zip error, parse error, runtime error, non-numeric / fractional / negative result
-	for vi, v := range []string{"ok", "badzip", "emptyzip", "parseerr", "rterr", "string", "float", "negative", "exesuffix"} {
+	for vi, v := range []string{"ok", "badzip", "emptyzip", "parseerr", "rterr", "string", "float", "negative", "exesuffix",
+		"bothexist-text", "bothexist-packed", "srcistarget", "srcistarget-link"} {
 		for _, n := range []int{0, f.bufSize - 1, 2*f.bufSize + 5} {
 			g.Count("after the scan: " + v)
 			g.Emit(fmt.Sprintf("out %s %d %d %d", v, n, vi%2, 5+vi))
